@@ -375,6 +375,7 @@ STANDING_ASSUMPTIONS = {
     'R14: the Binary arm of LoweringManager::lower_stmt is extracted as a block; LoweringManager is opaque: lower_expr yields an uninterpreted lowered operand, set(n, t, v) = LocalSet(n, v) (its real result)',
     'is_string_expr / is_reference_expr are uninterpreted predicates of the operand; mir::FunctionName::STR_EQ is a named constant',
     'wasm::InlineInstruction / Instruction / Type are extracted verbatim; names and LIR types inside them are opaque',
+    'lower_expr_into is verified verbatim (the table of locals behind the stub local_is_eq, R3); in the if-else arm it is used by its contract, with whether the assigned local is held type-erased at that point abstracted to an uninterpreted predicate; that a cast is REQUIRED for a (ref eq) local in a typed slot is WebAssembly validation, not proved here (execution corpus)',
   ],
   'oparms': [
     'operands are abstract (the text they print as): Expression::pretty_print / InlineInstruction::pretty_print append an uninterpreted text; Heap, SymbolTable, PStr opaque (R7)',
